@@ -21,7 +21,7 @@ ASSUMPTIONS = [
     "port numbers 1-14 only (15 is the extended-port escape); port names as documented (lower case)",
     "DataSegment(bytes) (simple data segment) is not asserted",
 ]
-FLOORS = {"quick": {"logical": 300000, "tagpath": 3000, "port": 2000, "route": 1000, "wire": 300},
+FLOORS = {"quick": {"logical": 300000, "tagpath": 3000, "port": 2000, "route": 1000, "wire": 1000},
           "thorough": {"logical": 300000, "tagpath": 100000, "port": 50000, "route": 30000}}
 EXHAUSTIVE = False
 
@@ -189,7 +189,7 @@ def plan(tier):
     for _ in range(n):
         jobs.append({"part": "random", "examples": 1000 if tier == "quick" else 30000})
     for i in range(8 if tier == "quick" else 32):
-        jobs.append({"part": "wire", "op": "read" if i % 2 else "write", "examples": 40 if tier == "quick" else 600})
+        jobs.append({"part": "wire", "op": "read" if i % 2 else "write", "examples": 160 if tier == "quick" else 1200})
     return jobs
 
 
